@@ -116,7 +116,7 @@ func init() {
 		[]string{"hint_checks", "hint_multi_file_output", "hint_vs_scan_opens"})
 	meta("C16", "exploration", concTech+"parties are in-process opener tasks plus one real child process driven in lock-step over a pipe (the scheduler decides whose turn it is); Open/Close outcomes are checked with porcupine against a single-holder lock model; a janitor task damages and repairs an older data file so that Opens fail after taking the lock; rejected Opens must leave the journal / directory hash unchanged",
 		NontrivialRuleText["C16"], 4000, 150000,
-		[]string{"opens_ok", "opens_rejected", "opens_failed_other", "closes", "rejected_open_dir_unchanged", "rejected_open_dir_unchanged_peer", "holder_token_writes", "lock_history_checks", "final_opens", "fault_damage_older_file"},
+		[]string{"opens_ok", "opens_rejected", "opens_failed_other", "closes", "rejected_open_dir_unchanged", "rejected_open_dir_unchanged_peer", "holder_token_writes", "lock_history_checks", "final_opens", "fault_damage_older_file", "stale_closes"},
 		"flock(2) between two open file descriptions behaves the same within and across processes (the child-process party checks the cross-process half directly)", "the garbage collector is off during a run so that a leaked lock is not released by a finalizer")
 	meta("C19", "exploration", seqTech+"the data-type layer is driven with the simulated clock (TTL boundaries hit at expiry-1ns / expiry / expiry+1ns) and restarts; normalised replies vs an abstract-type reference model",
 		NontrivialRuleText["C19"], 60000, 2000000,
